@@ -39,8 +39,19 @@ class Env:
         self.x = m.dvar(2)
         self.y = m.dvar()
         self.w = m.dvar()
+        self.s = m.dvar()          # scale variable of the perspective atoms pexpv / plogv
+        self.xe = None
+        self.uses_s = False
         self.X = None
-        self.ops += 6
+        self.ops += 7
+
+    def eventwise_var(self):
+        """a scalar decision that adapts to the scenarios (event {0} | event {1})"""
+        if self.xe is None:
+            self.xe = self.m.dvar()
+            self.xe.adapt(0)
+            self.ops += 2
+        return self.xe
 
     def matrix_var(self):
         if self.X is None:
@@ -101,6 +112,13 @@ def build_atom(env, atom):
         return rso.plog(x[0], x[1])
     if atom == 'plogc':
         return rso.plog(s, 2.0)
+    if atom in ('pexpv', 'plogv'):
+        env.uses_s = True
+        return rso.pexp(s, env.s) if atom == 'pexpv' else rso.plog(s, env.s)
+    if atom in ('pexpve', 'plogve'):
+        env.uses_s = True
+        xe = env.eventwise_var()
+        return rso.pexp(xe, env.s) if atom == 'pexpve' else rso.plog(xe, env.s)
     if atom == 'maxof':
         return rso.maxof(x[0], 2 * x[1] - 1, 0.25 - 0.5 * x[0])
     if atom == 'minof':
@@ -212,6 +230,12 @@ def pin(env, x, y, w):
     m.st(env.y == float(y))
     m.st(env.w == float(w))
     env.ops += 3
+    if env.uses_s:
+        m.st(env.s == R.scale_value(x))
+        env.ops += 1
+    if env.xe is not None:
+        m.st(env.xe == x[0] + 0.5 * x[1])
+        env.ops += 1
 
 
 def exc_name(ex):
